@@ -165,6 +165,17 @@ func sortedFrom(starts []*ssa.BasicBlock, t appendTarget) bool {
 		seen[b] = true
 		for _, ins := range b.Instrs {
 			if !isSortCall(ins) {
+				// a function of the module that sorts the parameter it receives the list in (the list is handed to a
+				// helper that sorts it first)
+				if call, ok := ins.(*ssa.Call); ok {
+					if sc := call.Call.StaticCallee(); sc != nil && isIstioFunc(sc) && len(sc.Blocks) > 0 {
+						for i, a := range call.Call.Args {
+							if i < len(sc.Params) && t.matches(a, 0, map[ssa.Value]bool{}) && sortsParam(sc, i, 0) {
+								return true
+							}
+						}
+					}
+				}
 				continue
 			}
 			cc := ins.(ssa.CallInstruction).Common()
@@ -181,6 +192,51 @@ func sortedFrom(starts []*ssa.BasicBlock, t appendTarget) bool {
 		st = append(st, b.Succs...)
 	}
 	return false
+}
+
+// sortsParam: fn hands its idx-th parameter to a sort call (directly, or through another module function that does).
+func sortsParam(fn *ssa.Function, idx int, depth int) bool {
+	if depth > 2 || idx >= len(fn.Params) {
+		return false
+	}
+	prm := ssa.Value(fn.Params[idx])
+	is := func(v ssa.Value) bool {
+		for i := 0; i < 3; i++ {
+			if v == prm {
+				return true
+			}
+			switch x := v.(type) {
+			case *ssa.ChangeType:
+				v = x.X
+			case *ssa.Slice:
+				v = x.X
+			default:
+				return false
+			}
+		}
+		return false
+	}
+	found := false
+	eachInstr(fn, func(ins ssa.Instruction) {
+		call, ok := ins.(*ssa.Call)
+		if !ok || found {
+			return
+		}
+		for i, a := range call.Call.Args {
+			if !is(a) {
+				continue
+			}
+			if isSortCall(call) {
+				found = true
+				return
+			}
+			if sc := call.Call.StaticCallee(); sc != nil && isIstioFunc(sc) && len(sc.Blocks) > 0 && sortsParam(sc, i, depth+1) {
+				found = true
+				return
+			}
+		}
+	})
+	return found
 }
 
 func loopMembers(fn *ssa.Function, H *ssa.BasicBlock) map[*ssa.BasicBlock]bool {
@@ -633,6 +689,8 @@ func c17r1(c *Ctx) {
 		"(*pilot/pkg/networking/core.ConfigGeneratorImpl).deltaFromDestinationRules|UnsortedList|returned":      "the returned names are inserted into a set in BuildDeltaClusters and the response uses sets.SortedList of it (22 removed names, one order over 300 generations)",
 		"(*pilot/pkg/networking/core.ConfigGeneratorImpl).deltaFromServiceDiff|UnsortedList|returned":           "same: set insert + SortedList in BuildDeltaClusters",
 		"(*pilot/pkg/networking/core.ConfigGeneratorImpl).deltaFromServiceDiff|param serviceClusters|local deletedClusters": "same: set insert + SortedList in BuildDeltaClusters",
+		"(*pilot/pkg/networking/core.ConfigGeneratorImpl).deltaFromServiceDiff|*|local deletedClusters": "same (removed names, whichever map of the function the loop walks): set insert + SortedList in BuildDeltaClusters",
+		"(*pilot/pkg/networking/core.ConfigGeneratorImpl).deltaFromServices|*|local deletedClusters":    "same: set insert + SortedList in BuildDeltaClusters",
 		"(*pilot/pkg/networking/core.ConfigGeneratorImpl).deltaFromServiceDiff|local map|local deletedClusters": "same (the clusters of a service whose imported ports changed): set insert + SortedList in BuildDeltaClusters; the services built from this loop are sorted by host name in the function",
 		"(*pilot/pkg/networking/core.ConfigGeneratorImpl).deltaFromServices|UnsortedList|returned":              "same: set insert + SortedList in BuildDeltaClusters",
 		"(*pilot/pkg/networking/core.ConfigGeneratorImpl).deltaFromServices|local map|local deletedClusters":    "same: set insert + SortedList in BuildDeltaClusters",
@@ -709,6 +767,9 @@ func c17r1(c *Ctx) {
 			exKey := key + "|" + strings.Join(m.unsorted, ",")
 			_, ex1 := except[key]
 			_, ex2 := except[exKey]
+			if _, ex3 := except[stableFnName(fn)+"|*|"+strings.Join(m.unsorted, ",")]; ex3 {
+				ex2 = true // the exception is about the function's target list, whatever the ranged map is called
+			}
 			if (ex1 || ex2) && !m.sorted {
 				c.Check("map-range append (frozen exception): "+exKey, m.pos, true, "")
 				continue
